@@ -23,6 +23,7 @@ import (
 // its before and after context on every commit of an indexed hunk.
 
 type expectCtx struct {
+	infeasible EdgeSet
 	w   *World
 	pf  *patchFamily
 	fn  *ssa.Function
@@ -87,6 +88,46 @@ func (x *expectCtx) mergeEdges() EdgeSet {
 			out[tE] = true
 		} else {
 			out[fE] = true
+		}
+	}
+	return out
+}
+
+// strictInfeasible: edges that cannot be taken when strategy is the strict
+// constant (case split over the closed enumeration patchStrategy): every
+// branch comparing the strategy parameter with one of its constants is
+// decided. Commits reachable only over such edges belong to merge patching.
+func (x *expectCtx) strictInfeasible() EdgeSet {
+	out := EdgeSet{}
+	strat := x.pf.roleParam(x.fn, "strategy")
+	strict := x.pf.strategyConst("strictPatchStrategy").Value.Value.ExactString()
+	for _, b := range x.fn.Blocks {
+		cond, tE, fE, ok := branchEdges(b)
+		if !ok {
+			continue
+		}
+		bo, ok := cond.(*ssa.BinOp)
+		if !ok || (bo.Op != token.EQL && bo.Op != token.NEQ) {
+			continue
+		}
+		var other ssa.Value
+		if strip(bo.X) == ssa.Value(strat) {
+			other = bo.Y
+		} else if strip(bo.Y) == ssa.Value(strat) {
+			other = bo.X
+		} else {
+			continue
+		}
+		k, ok := other.(*ssa.Const)
+		if !ok || k.Value == nil {
+			continue
+		}
+		isStrict := k.Value.ExactString() == strict
+		holds := isStrict == (bo.Op == token.EQL) // value of the condition when strategy == strict
+		if holds {
+			out[fE] = true
+		} else {
+			out[tE] = true
 		}
 	}
 	return out
@@ -232,7 +273,7 @@ func (x *expectCtx) loopVerified(l *Loop, accept EdgeSet) (bool, string) {
 			work = work[:len(work)-1]
 			for j, nx := range b.Succs {
 				e := Edge{b, j}
-				if accept[e] {
+				if accept[e] || x.infeasible[e] {
 					continue
 				}
 				if nx == l.Header {
@@ -330,6 +371,13 @@ func ruleExpect(w *World, r *Report, pf *patchFamily, scope func(*ssa.Function) 
 			continue
 		}
 		exempt := x.mergeEdges()
+		if _, closed := closedEnums(w, pf.pkg)[namedOf(pf.roleParam(fn, "strategy").Type())]; closed {
+			// patchStrategy is a closed enumeration: analyse the strict case only
+			for e := range x.strictInfeasible() {
+				exempt[e] = true
+			}
+		}
+		x.infeasible = exempt
 		isList := fn.Signature.Recv() != nil && typeName(fn.Signature.Recv().Type()) == "jsonList"
 		if isList {
 			// the -1 append marker commits without consulting context or removals (outside C03's quantifier)
@@ -598,5 +646,89 @@ func ruleDescend(w *World, r *Report, pf *patchFamily) {
 		r.Check(bad == "", rule, fnName(fn)+":own-commits-only-at-leaf", w.Pos(fn.Pos()),
 			fmt.Sprintf("all %d success returns that are not the outcome of a nested patch lie behind `pathAhead is exhausted`", n),
 			"a success return at "+bad+" is reachable while the hunk's path is not exhausted and without a nested patch: the rest of the path is silently ignored (no intermediate object created, no missing container reported)")
+	}
+}
+
+// ruleSearchAll: a loop whose natural exit leads only to error returns is a
+// search ("not found" behind it); its body must not leave towards that exit
+// (a break on a non-matching member ends the search early and the hunk is
+// rejected depending on member order).
+func ruleSearchAll(w *World, r *Report, pf *patchFamily, scope func(*ssa.Function) bool) {
+	const rule = "R-SEARCHALL"
+	ea := newErrAnalysis(w)
+	n := 0
+	for _, fn := range pf.functions() {
+		if scope != nil && !scope(fn) {
+			continue
+		}
+		for i, l := range loopsOf(fn) {
+			var exit *ssa.BasicBlock
+			for _, s := range l.Header.Succs {
+				if !l.Blocks[s] {
+					exit = s
+				}
+			}
+			if exit == nil || !ea.errorOnly(exit) {
+				continue
+			}
+			n++
+			r.Fn(fnName(fn))
+			bad := ""
+			for b := range l.Blocks {
+				if b == l.Header {
+					continue
+				}
+				for _, s := range b.Succs {
+					if s == exit {
+						bad = w.Pos(firstPos(b))
+					}
+				}
+			}
+			r.Check(bad == "", rule, fmt.Sprintf("%s:search-loop#%d", fnName(fn), i+1), w.Pos(firstPos(l.Header)), "the search loop visits every member before reporting `not found`",
+				"the search loop is left early (at "+bad+") towards its `not found` error: whether the addressed member is found depends on what stands before it")
+		}
+	}
+	if n == 0 {
+		r.Bad(rule, pf.tag+":instance-floor", "-", "no search loop (loop followed only by error returns) found in the patch family")
+	}
+}
+
+// ruleDeleteVoid: jsonObject.patch removes a member only when the patched
+// value is void (null is a value; turning null into a deletion is the merge
+// reader's job, not the patcher's).
+func ruleDeleteVoid(w *World, r *Report, pf *patchFamily) {
+	const rule = "R-DELETEVOID"
+	for _, fn := range pf.methods {
+		if fn.Signature.Recv() == nil || typeName(fn.Signature.Recv().Type()) != "jsonObject" {
+			continue
+		}
+		r.Fn(fnName(fn))
+		var del ssa.Instruction
+		allInstrs(fn, func(in ssa.Instruction) {
+			if c, ok := in.(ssa.CallInstruction); ok {
+				if b, ok := c.Common().Value.(*ssa.Builtin); ok && b.Name() == "delete" {
+					del = in
+				}
+			}
+		})
+		if del == nil {
+			r.Bad(rule, fnName(fn)+":delete", w.Pos(fn.Pos()), "the object patch no longer deletes a member for a void result")
+			continue
+		}
+		cut := EdgeSet{}
+		for _, b := range fn.Blocks {
+			cond, tE, _, ok := branchEdges(b)
+			if !ok {
+				continue
+			}
+			if c, ok := cond.(*ssa.Call); ok {
+				if sf := staticCallee(c); sf != nil && sf.Name() == "isVoid" {
+					cut[tE] = true
+				}
+			}
+		}
+		r.Check(len(cut) > 0 && cutsOff(fn, cut, del.Block()), rule, fnName(fn)+":delete-only-for-void", w.Pos(del.Pos()),
+			"a member is deleted only on the edge where the patched value is void",
+			"a member can be deleted although the patched value is not void (e.g. for null): a hunk that writes null removes the key instead, and merge patches rendered by patching the empty document lose their deletions")
 	}
 }
